@@ -76,6 +76,8 @@ C_Step ==
   /\ ~drift /\ IsEv("Step") /\ ~ended
   /\ HintStep /\ UNCHANGED schedV
   /\ LET j == NextCtl(l) IN
+       \* the key of a Get is not part of the observation state: bind it here
+       /\ (j > l + 1 /\ Trace[l + 1].e = "GetCall") => wkey'[Trace[l + 1].w] = Trace[l + 1].key
        /\ obs' = Fold(obs, l + 1, j - 1)
        /\ l' = j
        /\ Reached(j)
